@@ -19,7 +19,11 @@ RULE = ("random context-free grammars (<= 3 non-terminals, <= 3 terminals, <= 9 
         "cycle): at least one conflict must be reported; FIRST sets = textbook fixpoint; "
         "non-trivial = grammar with >= 1 accepted input or >= 1 conflict; distinct by SHA-1 of (rules, mode)")
 ASSUMPTIONS = ["R6 (vlib/ref/lr.py, cfg.py): membership and trees of the short inputs by exhaustive derivation - no LR machinery on the oracle side; long inputs by the reference's own textbook canonical LR(1) run, only for grammars where that table is conflict-free",
+               "KF4: a grammar with a derivation cycle whose table is nevertheless conflict-free (the cycle sits where no terminal string can be derived) can make the driver reduce for ever; such grammars get a 10 s watchdog and a hang on them is the known finding",
                "not judged: grammars that are unambiguous but not LR(1); conflicts reported for useless grammars where the same reduction is entered twice"]
+
+
+KF4_SIG = "kf4:lr-driver-loops-on-conflict-free-cyclic-grammar"
 
 
 def plan(tier, seed):
@@ -232,10 +236,39 @@ def _work(spec):
             opts.append(("i", "%d %s" % (len(w), " ".join(map(str, w)))))
         cases.append({"mode": "lr", "opts": opts})
         metas.append((nnt, nt, rules, prefix, inputs, maxt, longs))
-    outs, _ = common.run_batch(cases)
+    if spec.get("chunk") == 400000:
+        # the KF4 witness itself, in every run: N4 => N4 next to the unproductive N3
+        wr = [(0, (T2, ("n", 4), ("n", 3))), (1, (N1, T2)), (2, (T2, T2)), (3, (N2, N1)), (4, (N2,)), (4, (("n", 4),))]
+        wi = [[2, 2], [2, 2, 2, 2]]
+        cases.append({"mode": "lr", "opts": [("g", "5 0 0")] + [("r", "%d %d %s" % (l, len(r), " ".join(x[0] + str(x[1]) for x in r))) for l, r in wr]
+                      + [("i", "%d %s" % (len(w), " ".join(map(str, w)))) for w in wi]})
+        metas.append((5, 2, wr, 0, wi, 2, []))
+    # KF4: on a conflict-free table of a grammar with a derivation cycle the LR driver can reduce for ever without consuming input.
+    # Such grammars (cyclic, reference table of the same mode conflict-free) run in a batch of their own with a 10 s CPU watchdog
+    # per grammar instead of the 600 s one, so the known finding costs seconds, not twenty minutes
+    risky = []
+    for k, (nnt, nt, rules, prefix, inputs, maxt, longs) in enumerate(metas):
+        if cyclic(rules, nnt) and lr.build(rules, nnt, 0, bool(prefix), [("t", i) for i in range(1, max(maxt, 1) + 1)])["conflicts"] == 0:
+            risky.append(k)
+    outs = [None] * len(cases)
+    normal = [k for k in range(len(cases)) if k not in set(risky)]
+    res_n, _ = common.run_batch([cases[k] for k in normal])
+    for k, o in zip(normal, res_n):
+        outs[k] = o
+    if risky:
+        res_r, _ = common.run_batch([cases[k] for k in risky], case_cpu=10)
+        for k, o in zip(risky, res_r):
+            outs[k] = o
+            part["stats"]["conflict-free-cyclic-grammars"] += 1
+            if "timeout" in o:
+                o["kf4"] = True
     for (nnt, nt, rules, prefix, inputs, maxt, longs), case, o in zip(metas, cases, outs):
         part["evals"] += 1
         slim = {"mode": "lr", "opts": [list(x) for x in case["opts"] if x[0] != "i"], "rules": rules, "prefix": prefix}
+        if o.get("kf4"):
+            part["violations"].append({"signature": KF4_SIG, "message": "the LR driver does not come back (10 s CPU, twice) on an input of the conflict-free cyclic grammar %s prefix=%d"
+                                       % (rules, prefix), "case": slim})
+            continue
         if common.abnormal(ID, {"mode": "lr", "opts": case["opts"][:12]}, o, part, "in the LR generator / parser"):
             continue
         bad = []
